@@ -77,6 +77,7 @@ Lemma simple_lawful : lawful simple_policy (fun _ => True).
 Proof.
   constructor; try (intros; exact I).
   - intros c k _ H. cbn in *. destruct (sfind c k); [discriminate | discriminate H].
+  - intros c k v _ H. cbn in *. now rewrite H.
   - intros c k k' v _ H. exact H.
   - intros c k v k' v' _ H. rewrite simple_lookup in *. now apply sfind_sset.
   - intros c k _. reflexivity.
@@ -148,6 +149,7 @@ Proof.
     destruct (lqueue c); cbn; [now apply sset_nodupk|]. apply sdel_nodupk. now apply sset_nodupk.
   - intros c H. cbn. constructor.
   - intros c k _ H. cbn in *. unfold lru_get. destruct (sfind (ldict c) k); [discriminate | discriminate H].
+  - intros c k v _ H. cbn in *. unfold lru_get in H. destruct (sfind (ldict c) k); [reflexivity | discriminate H].
   - intros c k k' v _ H. rewrite lru_lookup in *. cbn in H. now rewrite lru_get_dict in H.
   - intros c k v k' v' Hg H. rewrite lru_lookup in *. cbn in H. unfold lru_put in H.
     destruct (length (lqueue c) <? lmax c); cbn in H; [now apply sfind_sset|].
